@@ -22,7 +22,7 @@ CHECKS = {
  "C06": ("proof", "Lean 4 theorems (consistency of every algorithm's result, outputs_from_partition, *_sums_values, snp/rnpF_sums_manager_independent, ckkF_sums_manager_independent; refutation ckk_sums_manager_dependent of the code before fix F11) + model-side output projection + correspondence across all output types",
          "Reported sums = totals of the reported bins is part of every validity theorem; every output type is a proved function of the bins (the model projects it); the sums-only manager's run returns the same sum vector as the contents manager's run for every algorithm (for complete Karmarkar-Karp this was false on the pinned tree - found by the proof attempt, repaired by fix F11, proved for the repaired code). Every case is run once per output type of prtpy.out and the statement itself is evaluated on the implementation.", TB),
  "C07": ("proof", "Lean 4 naturality theorems (alg (map f) = mapItems f . alg) for 15 algorithms, injective-renaming naturality and list-vs-named equality of the sum vector (ckkF_list_dict_sums, snp_list_dict_sums, rnpF_list_dict_sums) for CKK/SNP/RNP + validity theorems generic in the value function + correspondence across the six input formats and numpy arrays of narrow / unsigned integer types",
-         "Full for the fold-shaped algorithms, KK, CG, CBLDM, DP (any renaming, so repeated values in list input are covered); for CKK and SNP full as well (equivariance under injective renamings + equality of the whole sum vector with the run on the bare values; for CKK after fix F11, the statement was false before); for RNP (k <= 5) by RNPDict.rnpF_list_dict_sums; each case is presented as list, numpy array, dict (string and integer names) and names+valueof and compared strictly with the model; numpy arrays of 8- / 16- / 32- / 64-bit signed and unsigned integers give the sums of the plain list (after fix F13: arrays are normalised at the adaptor; before it multifit, dp, cg, snp, rnp, bin_completion wrapped around and ilp failed); known finding KF4 (bin_completion computes on names).", TB),
+         "Full for the fold-shaped algorithms, KK, CG, CBLDM, DP (any renaming, so repeated values in list input are covered); for CKK and SNP full as well (equivariance under injective renamings + equality of the whole sum vector with the run on the bare values; for CKK after fix F11, the statement was false before); for RNP (k <= 5) by RNPDict.rnpF_list_dict_sums; each case is presented as list, numpy array, dict (string and integer names) and names+valueof and compared strictly with the model; numpy arrays of 8- / 16- / 32- / 64-bit signed and unsigned integers give the sums of the plain list (after fix F13: arrays are normalised at the adaptor; before it multifit, dp, cg, snp, rnp, bin_completion wrapped around and ilp failed); bin_completion on named items: since fix F15 (the search runs on the values, the names are put back; formerly known finding KF4) not modelled but judged on every run by the verified checkers (valid packing of the names, same multiset of sums as for list input, optimal count).", TB),
  "C08": ("proof", "Lean 4 theorems greedy_four_thirds (Graham), kk_four_thirds, greedy/kk/roundrobin_gap, roundrobin_monotone/cards, multifit_ratio_five_fourths, MaxMin5.greedy_maxmin (LPT's exact max-min ratio (3k-1)/(4k-2) for every k) + verified DP oracle for the remaining sharp ratio",
          "Gap bounds and round-robin structure full; 4/3 - 1/(3k) proved in full for LPT and for Karmarkar-Karp; LPT's exact max-min ratio (3k-1)/(4k-2) (Csirik-Kellerer-Woeginger) proved in full for every k (MaxMin5.greedy_maxmin); PARTIAL only for multifit: proved <= (5/4 + 2^-it) OPT instead of 1.22 + 2^-it; that constant is searched for counter-examples with the verified oracle on every run.", TB),
  "C09": ("proof", "Lean 4 theorems ff/bf(±decreasing)_anyfit, ff/bf_seventeen_tenths_strong (<= 1.7 OPT + 1), ffd/bfd_three_halves, ffd/bfd_partial_four_thirds + verified optBins oracle",
@@ -83,7 +83,7 @@ def main():
                                        "is compared with the real prtpy from /repo's working tree on generated inputs; verified Lean checkers/oracles judge the implementation's outputs"}],
         "checks": checks,
         "not_applicable": [{"property_id": k, "reason": v} for k, v in sorted(NOT_YET.items())],
-        "notes": "See DESIGN.md. fix: commits F1-F9 in /repo are recorded in known_findings.json (status fixed); known findings KF1 (rnp >= 6 bins) and KF4 (bin_completion on named items).",
+        "notes": "See DESIGN.md. fix: commits F1-F15 in /repo are recorded in known_findings.json (status fixed; F13 ended KF7, F15 ended KF4); known findings KF1 (rnp >= 6 bins) and KF5 (complete greedy's heuristic 3 and the first solution).",
     }
     with open(os.path.join(VERIF, "MANIFEST.json"), "w") as f:
         json.dump(m, f, indent=1)
